@@ -199,9 +199,8 @@ def _local_fires(script, i, half):
 
 
 def gen_nest(rng, count, tag, panic=0.02, combs=None, local=False):
-    """two inner combinators over the two halves of the leaves, one outer combinator over them (harness build_nest).  No Coq model of a nest:
-       monitors only - except nest_jj / nest_jt / nest_mm / nest_gj / nest_gm, which the runner predicts by composing the extracted model with itself
-       (runner/main.ml nest_trace).  local=True: no leaf wakes a leaf of the other inner combinator from inside a poll"""
+    """two inner combinators over the two halves of the leaves, one outer combinator over them (harness build_nest).  Monitor-only suites and
+       the *-nest-sim suites (the composed model coq/Model/Nest.v nest_run predicts the leaf-level trace of all nine kinds).  local=True: no leaf wakes a leaf of the other inner combinator from inside a poll"""
     out = []
     for c in range(count):
         comb = rng.choice(combs or (NESTS_FUT + NESTS_STR))
